@@ -18,6 +18,16 @@ let handle = function
     let (c, key, iv, info) = v2_setup sym aead cs (bytes_of_hex sk) (bytes_of_hex salt) in
     let (out, ok) = Seipd2.seipd2_stream_dec (Prims.aopen aead sym) c key iv info (bytes_of_hex ct) in
     (if ok then "OK " else "ERR ") ^ hex_of_bytes out
+  | ["v1dec"; sym; key; mode; max; ct] ->
+    let symn = nn sym in
+    let k = bytes_of_hex key in
+    let bs = n_of_int (match int_of_string sym with 7 | 8 | 9 | 10 | 11 | 12 | 13 -> 16 | _ -> 8) in
+    let e = Prims.enc_block symn k in
+    let sha1 = Prims.hash (n_of_int 2) in
+    let (out, ok) =
+      if mode = "0" then Cfb.seipd1_checkfirst e bs sha1 (nn max) (bytes_of_hex ct)
+      else Cfb.seipd1_streaming e bs sha1 (bytes_of_hex ct) in
+    (if ok then "OK " else "ERR ") ^ hex_of_bytes out
   | _ -> "MODEL-ERROR unknown op"
 
 let () = run handle
